@@ -721,6 +721,21 @@ def _check_sort_relabel(ctx, fi: FuncInfo, res: RuleResult):
                 cs = ctx.cg.resolve_call(fi, keyexpr, ctx.cg.local_types(fi), set(params_of(fn)))
                 if cs.kind == "tucan":
                     ok, why = True, f"sorted (key({gen.target.id}), {gen.target.id}) pairs, key = {cs.target.name}"
+            elif isinstance(gen.target, ast.Tuple) and len(gen.target.elts) == 2 and all(isinstance(t_, ast.Name) for t_ in gen.target.elts) and not gen.ifs \
+                    and isinstance(keyexpr, ast.Name) and isinstance(atom, ast.Name) and {keyexpr.id, atom.id} == {t_.id for t_ in gen.target.elts} \
+                    and isinstance(gen.iter, ast.Call) and isinstance(gen.iter.func, ast.Name) and gen.iter.func.id == "zip" and len(gen.iter.args) == 2:
+                # (key, atom) for atom, key in zip(<atoms>, <keys of all atoms>): the same pairs (that the two sequences are
+                # aligned is R-FLOW-SERIAL's clause)
+                t0 = gen.target.elts[0].id
+                a_i = 0 if t0 == atom.id else 1
+                nodes_e, keys_e = gen.iter.args[a_i], gen.iter.args[1 - a_i]
+                p0 = params_of(fn)[0]
+                if norm(nodes_e) in (p0, f"{p0}.nodes", f"list({p0})", f"{p0}.nodes()") and isinstance(keys_e, ast.Call):
+                    cs = ctx.cg.resolve_call(fi, keys_e, ctx.cg.local_types(fi), set(params_of(fn)))
+                    if cs.kind == "tucan":
+                        ok, why = True, f"sorted (key, atom) pairs, keys of all atoms from {cs.target.name}"
+    if not ok and srt and why == "no sorted(...) of (key, atom) pairs":
+        raise AnalysisError(f"R-CODEC: `{short(srt[0], 70)}` in {fi.qualname}: cannot tell whether it sorts (attribute key, label) pairs")
     res.inst(fi.fq, "numbering = rank in sorted((attribute key, label))", "ok" if ok else "fail", detail=why)
     if not ok:
         res.fail(Finding("R-CODEC", fi.module.rel, fi.qualname, norm(rel[0].node), f"final numbering is not the sorted order of (attribute key, label): {why}", line=rel[0].node.lineno))
@@ -1126,6 +1141,27 @@ def r_attrread(ctx) -> RuleResult:
             if isinstance(n, ast.Call) and isinstance(n.func, ast.Attribute) and n.func.attr in ("add_edges_from", "add_weighted_edges_from") and n.args:
                 for x in ast.walk(n.args[0]):
                     carried.add(id(x))
+            # for u, v, data in G.edges(data=True): H.edges[..].update(data) / H.add_edge(.., **data): handed over as a whole
+            if isinstance(n, ast.For) and isinstance(n.target, ast.Tuple) and len(n.target.elts) == 3 and isinstance(n.target.elts[2], ast.Name):
+                dname = n.target.elts[2].id
+                uses = [x for x in ast.walk(ast.Module(n.body, [])) if isinstance(x, ast.Name) and x.id == dname and isinstance(x.ctx, ast.Load)]
+                pm_ = {}
+                for x in ast.walk(n):
+                    for c in ast.iter_child_nodes(x):
+                        pm_[id(c)] = x
+
+                def handed_over(u):
+                    p_ = pm_.get(id(u))
+                    if isinstance(p_, ast.Call) and u in p_.args and isinstance(p_.func, ast.Attribute) and p_.func.attr == "update" and isinstance(p_.func.value, ast.Subscript) \
+                            and isinstance(p_.func.value.value, ast.Attribute) and p_.func.value.value.attr == "edges":
+                        return True
+                    if isinstance(p_, ast.keyword) and p_.arg is None:
+                        pp_ = pm_.get(id(p_))
+                        return isinstance(pp_, ast.Call) and isinstance(pp_.func, ast.Attribute) and pp_.func.attr == "add_edge"
+                    return False
+                if uses and all(handed_over(u) for u in uses):
+                    for x in ast.walk(n.iter):
+                        carried.add(id(x))
         for node, kexpr, kind in reads:
             n_reads += 1
             if kind == "edge" and id(node) in carried:
